@@ -19,7 +19,8 @@ def run(ctx, res):
     if not ctx.get("replay"):
         # NetAccepter (the accepter Loop is normally given) is outside the Loop model, whose accepter is scripted
         from . import common as C
-        C.run_probes(res, "C20", ["netacc-ctx-before-loop", "netacc-ctx-between-accepts", "netacc-ctx-during-accept"])
+        C.run_probes(res, "C20", ["netacc-ctx-before-loop", "netacc-ctx-between-accepts", "netacc-ctx-during-accept",
+                              "loop-finish-after-handlers"])
     res.assumptions = ASSUMPTIONS
     res.rule = ("scenario = seeded history of 0-5 connections: accepter yields a connection / fails with a closing or another "
                 "error, context end, client close, transport failure, calls with gated handlers, gate releases, Assigner "
